@@ -19,7 +19,8 @@ def session(rng, nops):
         if ack:
             ops.append(f"{o} set ack T")
     ops += [f"a set_auto_retries 250 {rng.choice([0, 1, 3])}", f"b open_rx_pipe 1 {ADDR}", "b set listen T",
-            "a open_rx_pipe 1 a1a2a3a4a5", "a open_rx_pipe 2 a2", "a open_rx_pipe 4 a4", f"a open_tx_pipe {ADDR}"]
+            "a open_rx_pipe 1 a1a2a3a4a5", "a open_rx_pipe 2 a2", "a open_rx_pipe 4 a4", "a open_rx_pipe 5 a5",
+            f"a open_tx_pipe {ADDR}"]
     listening = False
     for _ in range(nops):
         x = rng.random()
@@ -30,7 +31,7 @@ def session(rng, nops):
             if not listening and rng.random() < 0.5:
                 listening = True
                 ops.append("a set listen T")
-            p = rng.choice([0, 1, 2, 4]) if listening else 1
+            p = rng.choice([0, 1, 2, 4, 5, 5]) if listening else 1
             n = rng.randint(1, 32) if dyn else (lens[p] if rng.random() < 0.9 else rng.randint(1, 32))
             ops.append(f"env inject 0 {p} {rbytes(rng, n)}")
         elif x < 0.45 and not listening:
@@ -67,7 +68,7 @@ def flist(s):
 
 class C10(PropCheck):
     prop = "C10"
-    rule = ("traffic histories on a real RF24 (arrivals on pipes 0/1/2/4 of different lengths, 0..3 queued per FIFO, ACK payloads, "
+    rule = ("traffic histories on a real RF24 (arrivals on pipes 0/1/2/4/5 of different lengths, 0..3 queued per FIFO, ACK payloads, "
             "failed and successful transmissions, write-only payloads) interleaved with every accessor, static and dynamic "
             "payload modes; each accessor result is compared with the simulated radio's actual FIFOs/flags; non-trivial = some "
             "accessor was called with a non-empty FIFO or a latched flag")
@@ -82,7 +83,7 @@ class C10(PropCheck):
         return [(session(rng, d), "traffic-random") for _ in range(n)]
 
     def nontrivial(self, line, io):
-        return "rxf=[0:" in io or "rxf=[1:" in io or "rxf=[2:" in io or "rxf=[4:" in io
+        return any(f"rxf=[{p}:" in io for p in (0, 1, 2, 4, 5))
 
     def judge(self, triples):
         out = []
@@ -114,6 +115,7 @@ class C10(PropCheck):
                                "get irq_df": "T" if fl & 0x10 else "F"}[m]
                         if res != exp:
                             what = f"after update(), {t[2]} is {res} but the radio's state says {exp}"
+                            break
                     continue  # cached accessors do not touch the radio; `fresh` stays
                 fresh = False
                 if m == "available":
